@@ -1,12 +1,30 @@
 package node
 
 import (
+	"context"
+	"fmt"
+
+	"github.com/freeconf/yang/fc"
 	"github.com/freeconf/yang/meta"
 	"github.com/freeconf/yang/val"
 	"github.com/freeconf/yang/xpath"
 )
 
 type CheckWhen struct {
+}
+
+type whensInProgressKey struct{}
+
+type whenInProgress struct {
+	when  *meta.When
+	outer *whenInProgress
+}
+
+func ctxValue(s *Selection, key interface{}) interface{} {
+	if s == nil || s.Context == nil {
+		return nil
+	}
+	return s.Context.Value(key)
 }
 
 func (y CheckWhen) CheckContainerPostConstraints(r ChildRequest, s *Selection) (bool, error) {
@@ -57,7 +75,26 @@ func (y CheckWhen) check(s *Selection, m meta.Meta) (bool, error) {
 					ctx = s
 				}
 			}
-			if proceed, err := ctx.XPredicate(xp); !proceed || err != nil {
+			// the path of a condition may lead to nodes that have conditions, those are evaluated
+			// as well. A condition that comes by itself that way would never finish
+			inProgress, _ := ctxValue(ctx, whensInProgressKey{}).(*whenInProgress)
+			for p := inProgress; p != nil; p = p.outer {
+				if p.when == w {
+					return false, fmt.Errorf("%w. when \"%s\" of %s depends on itself", fc.BadRequestError, w.Expression(), m.(meta.Identifiable).Ident())
+				}
+			}
+			eval, err := ctx.makeCopy()
+			if err != nil {
+				return false, err
+			}
+			for p := eval; p != nil; p = p.parent {
+				base := p.Context
+				if base == nil {
+					base = context.Background()
+				}
+				p.Context = context.WithValue(base, whensInProgressKey{}, &whenInProgress{when: w, outer: inProgress})
+			}
+			if proceed, err := eval.XPredicate(xp); !proceed || err != nil {
 				return false, err
 			}
 		}
